@@ -17,7 +17,7 @@ ID = "C11"
 LEVEL = "exploration"
 RULE = (
     "random configurations of 1-5 synthetic frameworks (1-3 backends each, priorities from {-5,-2,-1,0,0,1}, eager or register-on-import, healthy or raising factories) plus numpy "
-    "on fresh BackendRegistry() instances; histories of 3-14 steps (lazy import, enter/exit, lookups by object / name / unknown name / argument types incl. mixed, scalar-only, "
+    "on fresh BackendRegistry() instances; histories of 3-14 steps (lazy import, with-protocol enter / exit / exit by exception with the use-stack compared to the model's, lookups by object / name / unknown name / argument types incl. mixed, scalar-only, "
     "unsupported, empty); each configuration replayed under a second registration order; plus fixed precedence checks on the real global registry; "
     "distinct by (configuration signature, lookup kind, expected outcome); non-trivial if >= 2 frameworks or a with-block or a failing factory is involved"
 )
@@ -62,7 +62,7 @@ def run(spec, out):
             elif k < 0.27:
                 steps.append(("enter", rng.random()))
             elif k < 0.37:
-                steps.append(("exit",))
+                steps.append(("exit", rng.random() < 0.4))  # True: the with-block is left by an exception
             else:
                 tens = []
                 for _ in range(rng.randint(0, 3)):
@@ -103,6 +103,7 @@ def run(spec, out):
 
 
 def play(out, rng, fws, order, steps, mk_backend, BackendRegistry, Backend, InvalidBackend, E, it):
+    from einx._src.frontend.backend import Use
     reg = BackendRegistry()
     objs = {}
     M = dict(reg=[], pending={}, stack=[])
@@ -173,7 +174,7 @@ def play(out, rng, fws, order, steps, mk_backend, BackendRegistry, Backend, Inva
             n = regd[int(st[1] * len(regd)) % len(regd)]
             try:
                 b = reg.get(n)
-                reg.enter(b)
+                Use(b, reg).__enter__()  # the 'with backend:' protocol on this registry
                 M["stack"].append(n)
             except Exception as e:  # noqa
                 out.violation({"kind": "enter-failed", "exc": type(e).__name__}, {"name": n}, f"enter of registered backend {n} failed: {e!r}")
@@ -181,7 +182,18 @@ def play(out, rng, fws, order, steps, mk_backend, BackendRegistry, Backend, Inva
         if st[0] == "exit":
             if M["stack"]:
                 n = M["stack"].pop()
-                reg.exit(reg.get(n))
+                if st[1]:
+                    err = RuntimeError("raised inside the with-block")
+                    suppressed = Use(reg.get(n), reg).__exit__(RuntimeError, err, None)
+                    out.count("with_left_by_exception")
+                    if suppressed:
+                        out.violation({"kind": "with-block-suppresses-exception"}, {"name": n}, f"leaving 'with {n}' by an exception suppressed the exception")
+                else:
+                    Use(reg.get(n), reg).__exit__(None, None, None)
+                got_stack = [b.name for b in reg.state.use_stack]
+                if got_stack != M["stack"]:
+                    out.violation({"kind": "with-stack-not-restored", "by_exception": bool(st[1])}, {"expected": list(M["stack"]), "got": got_stack}, f"after leaving 'with {n}' (by exception: {st[1]}) the use-stack is {got_stack}, expected {M['stack']}")
+                    reg.state.use_stack[:] = [reg.get(x) for x in M["stack"]]
             continue
         _, barg_s, tens_s, again = st
         tensors = []
@@ -294,11 +306,31 @@ def real_registry_checks(out):
     got = name(lambda: get(None, [x]))
     if got != ("ok", "numpy"):
         out.violation({"kind": "real-registry-precedence", "case": "with-exit"}, {"got": got}, f"after with: {got}")
+    # a with-block left by an exception (raised by an einx call or by user code) restores the selection as well
+    for label, body in [("einx-error", lambda: einx.sum("a [b", x)), ("user-error", lambda: 1 / 0), ("op-not-supported", lambda: einx.softmax("a [b]", x))]:
+        out.evaluation()
+        try:
+            with einsum:
+                with get("numpy.numpylike") if label == "user-error" else einsum:
+                    body()
+            escaped = None
+        except Exception as e:  # noqa
+            escaped = type(e).__name__
+        got = name(lambda: get(None, [x]))
+        if escaped is None and label != "op-not-supported":
+            out.violation({"kind": "real-registry-precedence", "case": "with-exception-suppressed"}, {"label": label}, f"exception raised inside a with-block did not propagate ({label})")
+        elif got != ("ok", "numpy"):
+            out.violation({"kind": "real-registry-precedence", "case": "with-exit-by-exception"}, {"got": got, "label": label}, f"after a with-block left by {escaped}: selection is {got}")
+            from einx._src.frontend.backend import registry as _r
+            _r.state.use_stack.clear()
+        else:
+            out.count("real_agree")
+            out.count("real_with_left_by_exception")
 
 
 def finalize(agg, tier, seed):
     c = agg.counters
-    for k in ("lookup:types", "lookup:with", "lookup:name", "lookup:object", "outcome:BackendResolutionError", "outcome:ValueError", "order_pairs_equal", "real_agree"):
+    for k in ("lookup:types", "lookup:with", "lookup:name", "lookup:object", "outcome:BackendResolutionError", "outcome:ValueError", "order_pairs_equal", "real_agree", "with_left_by_exception", "real_with_left_by_exception"):
         if c.get(k, 0) < 10:
             agg.inconclusive.append(f"{k} observed only {c.get(k, 0)} times")
     return {}
